@@ -14,7 +14,8 @@ structure LocB (s : St) (p : Proc) : Prop where
   wrNl : p.pc = .sWriteNl →
     ∃ c, fileOf s (p.ident.getD 0) = some c ∧ c.length = p.off + 1 ∧ c[p.off]? = some (some p.text)
   wrDone : p.pc = .sFlush ∨ p.pc = .sIdxSet →
-    ∃ c, fileOf s (p.ident.getD 0) = some c ∧ c[p.off]? = some (some p.text) ∧ c[p.off + 1]? = some none
+    ∃ c, fileOf s (p.ident.getD 0) = some c ∧ c[p.off]? = some (some p.text) ∧ c[p.off + 1]? = some none ∧
+      c.length = p.off + 2      -- the line just written is the end of the file
   noFile : p.pc = .oRel ∨ p.pc = .oOpenW → fileOf s (p.ident.getD 0) = none
   rdIdx : (p.pc = .gRel ∨ p.pc = .gPathsGet ∨ p.pc = .gOpenR ∨ p.pc = .gSeek ∨ p.pc = .gReadline) →
     s.index[p.gid]? = some (some (p.target, p.off))
@@ -42,9 +43,7 @@ theorem LocB.frame {scripts : List (List Op)} {s s' : St} {j : Nat} {q : Proc} (
     intro h
     have : q.ident.isSome = true := by
       rcases h with h | h | h
-      · have := hA.sPc h
-        have h2 := hA.openId (by intro h'; simp [h', isS] at h) (by intro h'; simp [h', isS] at h)
-        rw [← h2]; exact this
+      · exact hA.openId (hA.sPc h)
       · exact hA.oIdSome (Or.inl h)
       · exact hA.oIdSome (Or.inr h)
     cases hid : q.ident with
@@ -192,6 +191,7 @@ stepB InvB.s_sRelErr .sRelErr => finB
 stepB InvB.s_iRel .iRel => finB
 stepB InvB.s_lCnt .lCnt => finB
 stepB InvB.s_cCnt .cCnt => finB
+stepB InvB.s_xClose .xClose => finB
 stepB InvB.s_gReadline .gReadline => split at hs0 <;> finB
 stepB InvB.s_gRelErr .gRelErr => split at hs0 <;> finB
 
@@ -215,10 +215,7 @@ theorem ident_getD {p : Proc} (h : p.ident.isSome = true) : p.ident = some (p.id
 
 theorem LocA.ident_of_isS {scripts : List (List Op)} {s : St} {i : Nat} {p : Proc} (hL : LocA scripts s i p)
     (h : isS p.pc = true) : p.ident = some (p.ident.getD 0) := by
-  apply ident_getD
-  have := hL.sPc h
-  have h2 := hL.openId (by intro h'; simp [h', isS] at h) (by intro h'; simp [h', isS] at h)
-  rw [← h2]; exact this
+  exact ident_getD (hL.openId (hL.sPc h))
 
 stepB InvB.s_oPathsAppend .oPathsAppend =>
   simp only [Option.some.injEq] at hs0; subst hs0
@@ -284,7 +281,7 @@ stepB InvB.s_sIdxSet .sIdxSet =>
   have hF := StepA.of_step' hA hp hs (p'' := _) rfl
   have hun := hLB.unset (Or.inr (Or.inr (Or.inr (Or.inr hpc))))
   have hlt := hLB.gidLt (Or.inr (Or.inr (Or.inr (Or.inr (Or.inr hpc)))))
-  obtain ⟨c, hc1, hc2, hc3⟩ := hLB.wrDone (Or.inr hpc)
+  obtain ⟨c, hc1, hc2, hc3, _⟩ := hLB.wrDone (Or.inr hpc)
   have hmono : ∀ (g : Nat) (e : Nat × Nat), s.index[g]? = some (some e) →
       (s.index.set p.gid (some (p.ident.getD 0, p.off)))[g]? = some (some e) := by
     intro g e h
@@ -417,6 +414,7 @@ theorem InvB.step_both {scripts : List (List Op)} {s s' : St} {i : Nat} (hA : In
     | fCntZero => exact InvB.s_fCntZero hA hB hp hpc hs
     | fWfZero => exact InvB.s_fWfZero hA hB hp hpc hs
     | fRel => exact InvB.s_fRel hA hB hp hpc hs
+    | xClose => exact InvB.s_xClose hA hB hp hpc hs
 
 theorem InvB.step {scripts : List (List Op)} {s s' : St} {i : Nat} (hA : InvA scripts s) (hB : InvB s)
     (hs : step s i = some s') : InvB s' := (hB.step_both hA hs).1
